@@ -349,6 +349,41 @@ def twin_externals(ctx, rng, n: int) -> Iterator[Tuple[str, Callable]]:
             yield f"PDK device used directly and through compile ({kind}) #{k}", (lambda kind=kind: thunk_pdk(kind))
 
 
+def reimported_externals(ctx, rng, n: int) -> Iterator[Tuple[str, Callable]]:
+    """A module exported, imported again with `from_proto`, and instantiated NEXT TO the original external module it was built from
+    (with and without a domain): one device, declared once in the new package."""
+    import hdl21 as h
+
+    for k in range(n):
+        for dom in (None, "", "hvre"):
+            def thunk(dom=dom):
+                kw = {} if dom is None else {"domain": dom}
+                em = h.ExternalModule(name=f"ReAmp{next(_uid)}", port_list=[h.Input(name="a"), h.Output(name="z")], paramtype=h.HasNoParams, **kw)
+                m1 = h.Module(name=f"ReM{next(_uid)}")
+                a, z = m1.add(h.Port(), name="a"), m1.add(h.Port(), name="z")
+                m1.add(em()(a=a, z=z), name="x")
+                ns = h.from_proto(h.to_proto(m1))
+                # find the imported module in the returned namespace tree
+                found = []
+
+                def walk(node, depth=0):
+                    for v in vars(node).values():
+                        if isinstance(v, h.Module):
+                            found.append(v)
+                        elif hasattr(v, "__dict__") and depth < 8 and not isinstance(v, (str, type)):
+                            walk(v, depth + 1)
+
+                walk(ns)
+                imported = [f for f in found if f.name == m1.name][0]
+                top = h.Module(name=f"ReTop{next(_uid)}")
+                s1, s2 = top.add(h.Signal(), name="s1"), top.add(h.Signal(), name="s2")
+                top.add(h.Instance(of=imported)(a=s1, z=s2), name="i_imported")
+                top.add(em()(a=s2, z=s1), name="i_original")
+                return h.to_proto(top)
+
+            yield f"imported module next to the original external module (domain={dom!r}) #{k}", thunk
+
+
 def collision_designs(ctx, rng, n: int) -> Iterator[Tuple[str, Callable]]:
     """Adversarially named designs (the C05 variants): names the elaborator invents given to designer objects."""
     import hdl21 as h
